@@ -7,14 +7,23 @@ import tempfile
 
 LEVEL = "proof"
 RULE = ("random FASTA texts: 1..4 sequences (empty ones included), each a concatenation of 0..9 runs of "
-        "N / n / ACGT / acgt of length 0..200 whose lengths are biased to multiples of the line width +-1 "
-        "(runs start, end and straddle line breaks), rendered with a fixed width 1..80, ragged widths, "
-        "two-line records, CRLF, trailing blanks, blank lines, missing final newline; 0..3 exclude BEDs "
-        "whose coordinates are biased to run edges +-1 (touching, overlapping, nested, duplicated, unsorted, "
-        "unknown chromosome); min-gap 0..300 biased to the N-run lengths +-1; both skip_noncanonical; names "
-        "from canonical and non-canonical pools; plus get_regions alone, the CLI, the contig-name rule on "
-        "assembled names, and a small malformed stream.  non-trivial = some sequence has both N and non-N "
-        "characters; distinct = distinct case by hash")
+        "N / n / ACGT / acgt / IUPAC codes of length 0..200 whose lengths are biased to multiples of the line "
+        "width +-1 (runs start, end and straddle line breaks), 15 % 'dense' sequences of 6..30 runs of length "
+        "1..4 (lines holding 3+ runs, long join chains); rendered with a fixed width 1..80, ragged widths, "
+        "two-line records, CRLF, trailing blanks, blank lines (empty or blanks only; inside, at the end, right "
+        "after a header), missing final newline; 0..3 exclude BEDs whose coordinates are biased to run edges "
+        "+-1 and to the edges left by the earlier exclude files (touching, abutting, overlapping, nested, "
+        "duplicated, unsorted, unknown chromosome, 2..4 separate exclusions inside or overhanging one run, "
+        "the same file twice), written as bare 3 columns / BED4 / BED6 / with comment lines / track and "
+        "browser lines / CRLF; min-gap 0..300 biased to the lengths +-1 of the N runs and of the gaps the "
+        "exclusions open; both skip_noncanonical; names from canonical and non-canonical pools; do_access "
+        "called with 4 positional arguments (50 %), by keyword, with a tuple of files, with min_gap_size and/or "
+        "skip_noncanonical (and an empty exclude list) left to their defaults; plus get_regions alone; ~12 % "
+        "of the access cases through `cnvkit.py access` in-process (-s/--min-gap-size[=], -x/--exclude[=] "
+        "repeated, -o/--output, -s left out, options before or after the FASTA) and 3 (quick) / 12 (thorough) "
+        "as a subprocess `python -m cnvlib.cnvkit access FASTA -s N -x BED` with the regions read from "
+        "standard output; the contig-name rule on assembled names, and a small malformed stream.  "
+        "non-trivial = some sequence has both N and non-N characters; distinct = distinct case by hash")
 EXHAUSTIVE = {"quick": False, "thorough": False}
 ASSUMPTIONS = [
     "sequence names within one FASTA file are distinct (duplicates: join_regions' assertion fires; malformed stream, model mirrors it)",
@@ -171,6 +180,17 @@ def _gen_beds(rng, names, seqs):
             if e <= s:
                 e = s + rng.choice([1, 1, 2, 10])
             rows.append([c, s, e])
+        if rng.random() < 0.4:
+            # several separate exclusions inside (or hanging over the ends of) ONE run: the only way to reach
+            # the multi-row arms of `_subtraction` (keep both edges / left / right / neither, 2..4 rows)
+            k = rng.randrange(len(names))
+            long_runs = [r for r in _runs(seqs[k]) if r[1] - r[0] >= 6]
+            if long_runs:
+                rs, re_ = rng.choice(long_runs)
+                lo, hi = max(0, rs - rng.choice([0, 0, 2])), re_ + rng.choice([0, 0, 2])
+                n = min(rng.choice([2, 2, 3, 4]), (hi - lo + 1) // 2)
+                pts = sorted(rng.sample(range(lo, hi + 1), 2 * n))
+                rows += [[names[k], pts[2 * j], pts[2 * j + 1]] for j in range(n)]
         if rng.random() < 0.6:
             rows.sort(key=lambda r: (r[0], r[1], r[2]))
         beds.append(rows)
@@ -307,6 +327,8 @@ CALLS = ["pos"] * 6 + ["kw", "kw", "tuple", "nogap", "noskip", "defaults"]
 
 def _gen_access(rng, tag=None):
     names, headers, seqs, style = _gen_file(rng)
+    if not any(_runs(q) for q in seqs) and rng.random() < 0.75:
+        names, headers, seqs, style = _gen_file(rng)     # fewer files without any region at all
     beds = _gen_beds(rng, names, seqs)
     extra = {"beds": beds, "bedfmt": [rng.choice(BEDFMTS) for _ in beds],
              "gap": _gen_gap(rng, seqs, names, beds), "skip": rng.random() < 0.5}
